@@ -297,6 +297,17 @@ func run(c *core.Ctx) {
 			}
 		}
 	}
+	if c.Thorough() {
+		reduced := []int{2, 4, 5, 6, 8, 9, 12}
+		for _, a := range reduced {
+			for _, b := range reduced {
+				for _, d := range reduced {
+					all = append(all, Prog{Fields: []int{a, b, d}, PkgTag: false}, Prog{Fields: []int{a, b, d}, PkgTag: true, Interfaces: true})
+				}
+			}
+		}
+		c.Bound("three_field_lists_over_kinds", []string{"[]int", "tagged-struct", "untagged-dependency-struct", "nested-3-levels", "defined-map", "error", "instantiated-generic"})
+	}
 	c.Bound("programs", len(all))
 	const batch = 300
 	for i := 0; i < len(all); i += batch {
